@@ -193,6 +193,60 @@ func runPropCounters(p *core.Prog) *core.Result {
 			res.OK(key, p.Pos(st.Pos()), "decrement guarded by the comparison with its own counter")
 		}
 	})
+	// every path that shortens propNames reaches the comparison with lastSortedPropLen
+	if fNames, err := p.Field(core.GojaPath, "baseObject", "propNames"); err == nil {
+		cmpBlocks := map[*ssa.BasicBlock]bool{}
+		core.AllInstrs(fn, func(in ssa.Instruction) {
+			if b, ok := in.(*ssa.BinOp); ok && (counterOf(b.X) == fLast || counterOf(b.Y) == fLast) {
+				cmpBlocks[in.Block()] = true
+			}
+		})
+		k := 0
+		core.AllInstrs(fn, func(in ssa.Instruction) {
+			st, ok := in.(*ssa.Store)
+			if !ok {
+				return
+			}
+			fa, ok := st.Addr.(*ssa.FieldAddr)
+			if !ok || core.FieldOf(fa) != fNames {
+				return
+			}
+			k++
+			key := fmt.Sprintf("(*baseObject)._delete:propNames store#%d reaches the counter update", k)
+			// a return reachable from here without passing a comparison block?
+			seen := map[*ssa.BasicBlock]bool{}
+			var bad bool
+			var walk func(b *ssa.BasicBlock)
+			walk = func(b *ssa.BasicBlock) {
+				if seen[b] || bad || cmpBlocks[b] {
+					return
+				}
+				seen[b] = true
+				if len(b.Instrs) > 0 {
+					if _, isRet := b.Instrs[len(b.Instrs)-1].(*ssa.Return); isRet {
+						bad = true
+						return
+					}
+				}
+				for _, s := range b.Succs {
+					walk(s)
+				}
+			}
+			if !cmpBlocks[st.Block()] {
+				for _, s := range st.Block().Succs {
+					walk(s)
+				}
+				if len(st.Block().Succs) == 0 {
+					bad = true
+				}
+			}
+			if bad {
+				res.Bad(key, p.Pos(st.Pos()), "a name is removed from propNames on a path that returns without comparing its position with lastSortedPropLen: the sorted-prefix counters stay too large, so a key added next is never sorted in (wrong own-key order) and idxPropCount-based shortcuts misfire")
+			} else {
+				res.OK(key, p.Pos(st.Pos()), "followed by the comparison with lastSortedPropLen on every path")
+			}
+		})
+	}
 	for _, f := range []*types.Var{fIdx, fLast} {
 		if !done[f] {
 			res.Bad("(*baseObject)._delete:"+f.Name()+"--", p.Pos(fn.Pos()), f.Name()+" is never decremented when a name is removed from propNames")
